@@ -13,6 +13,10 @@
 (*          whitespace, rename, add_axes                                   *)
 (*   "bad"  malformed ASTs by mutation of well-formed ones                 *)
 (*   "tok"  mutated token sequences (inside and outside the grammar)       *)
+(*   "his"  mechanism B: HISTORIES on one object and the objects derived   *)
+(*          from it (use, add_axes, rename, reparse in every order up to   *)
+(*          HisLen): a small state machine, every reachable state is one   *)
+(*          history with the expected observation of every object in it    *)
 (*   "acc"  second pass: ASTs that the real code RETURNED for inputs on    *)
 (*          which the spec only requires "rejected, or accepted as a       *)
 (*          well-formed MapSpec" are read back and judged by Violations    *)
@@ -36,8 +40,11 @@ CONSTANTS Part, Shard, NShards,
           MaxAxes, BigAxes, \* bound on the total number of input axes (structures with < / >= BigIn inputs)
           LawDim,           \* size of the axis added when checking LawAddAxesDenotes
           MutIn, MutRank,   \* "bad": base structures have <= MutIn inputs of rank <= MutRank
-          TokIn, TokRank, TokR, TokMod   \* "tok": base structures: <= TokIn inputs, rank <= TokRank, output rank
+          TokIn, TokRank, TokR, TokMod,  \* "tok": base structures: <= TokIn inputs, rank <= TokRank, output rank
                                          \* <= TokR, and StructCode % TokMod = 0
+          HisIn, HisRank, HisR,          \* "his": base structures: <= HisIn inputs, rank <= HisRank, output rank <= HisR
+          HisLen, HisMod                 \* histories of <= HisLen operations for bases with StructCode % HisMod = 0,
+                                         \* of <= HisLen - 1 operations for the other bases
 VARIABLES case, out
 vars == <<case, out>>
 
@@ -159,8 +166,15 @@ AddArgs(m, sch) ==
        <<OutAxes(m)[1]>>, <<sch.fresh[2], OutAxes(m)[Len(OutAxes(m))]>>,       \* clash with an existing index
        <<COLON>>, <<sch.fresh[1], COLON>>,                     \* ':' would reach the outputs
        <<"1i">> >>                                             \* not an identifier
+(* the arrow-count mutants of str(m), each without whitespace and with whitespace in every position; *)
+(* the chained "next step" is an array that does not occur in m                                      *)
+ArrowCases(m, sch) ==
+    LET sq == ArrowMutants(PrintMS(m), sch.newN[2])
+    IN  [q \in DOMAIN sq |-> [t |-> sq[q].t, toks |-> sq[q].toks, gaps |-> Spread(sq[q].toks),
+                               arrows |-> ArrowCount(sq[q].toks)]]
 SynOut(m, sch) ==
     [toks |-> PrintMS(m), gaps |-> Spread(PrintMS(m)),
+     arrows |-> ArrowCases(m, sch),
      ren  |-> [q \in DOMAIN RenameArgs(m, sch) |->
                  [r |-> RenameArgs(m, sch)[q], ms |-> Rename(m, RenameArgs(m, sch)[q])]],
      add  |-> [q \in DOMAIN AddArgs(m, sch) |->
@@ -234,6 +248,7 @@ TokMuts(t) ==
 TokOut(toks) ==
     LET p == ParseMS(toks, Lex)
     IN  [ok |-> p.ok, ms |-> p.ms,
+         must_reject |-> TextMustReject(toks), arrows |-> ArrowCount(toks),     \* not even leniently acceptable
          why |-> IF p.ok THEN Violations(p.ms, Lex) ELSE {},
          regular |-> p.ok /\ Regular(p.ms)]
 InitTok == \E s \in {x \in Structs(TokIn, TokRank, TokR) : InShard(x) /\ StructCode(x) % TokMod = 0} :
@@ -241,6 +256,41 @@ InitTok == \E s \in {x \in Structs(TokIn, TokRank, TokR) : InShard(x) /\ StructC
                \E mu \in TokMuts(Squeeze(PrintMS(Named(s, Schemes[SchemeOf(s)], no)))) :
                   /\ case = [kind |-> "tok", mut |-> mu.t, toks |-> mu.toks]
                   /\ out = TokOut(case.toks)
+
+---------------------------------------------------------------------------
+(* Part "his": histories (mechanism B).  A state is a history: case.ops the operations so far,      *)
+(* out.objs the objects so far - the base object and one per deriving operation, each with its       *)
+(* expected observation.  HisNext appends one enabled operation; every reachable state is exported   *)
+(* (a history and all its prefixes), so the harness realises every order of use / derive up to the    *)
+(* length bound on real objects: it performs the operations one after the other on the CURRENT (last  *)
+(* derived) object, compares what "attr" / "keys" return on the way, and at the end observes EVERY     *)
+(* object of the history completely.  The index sizes 2, 3, 4 are pairwise different and > 1.          *)
+HisSizes(s)  == [k \in 1..s.R |-> k + 1]
+HisScheme(c) == Schemes[c.sch]
+HisBase(s)   == Obj(Named(s, Schemes[SchemeOf(s)], NOutOf(s)), InShapes(s, HisSizes(s), 3), InternalDims(s, HisSizes(s)))
+HisObj(o)    == [m |-> o.m, insh |-> o.insh, internal |-> o.internal, obs |-> Observe(o)]
+HisFresh(o, sch) == SelectSeq(sch.fresh, LAMBDA f : ~AddAxesClash(o.m, <<f>>))      \* index names not yet in use
+HisRenames(m, sch) == LET ra == RenameArgs(m, sch)                 \* one array to a new (scoped / plain) name, and
+                      IN  {ra[1]} \cup (IF m.ins # <<>> THEN {ra[5]} ELSE {})   \* the in/out swap
+HisOps(o, sch) ==
+    {OpAttr, OpKeys, OpReparse}
+    \cup (LET fr == HisFresh(o, sch)                                    \* one new axis / two new axes at once
+          IN  (IF Len(fr) >= 1 THEN {OpAdd(<<fr[1]>>, <<LawDim>>)} ELSE {})
+              \cup (IF Len(fr) >= 2 THEN {OpAdd(<<fr[2], fr[1]>>, <<LawDim + 1, LawDim>>)} ELSE {}))
+    \cup {OpRen(r) : r \in {x \in HisRenames(o.m, sch) : Rename(o.m, x) # o.m}}
+HisBound(c) == IF c.code % HisMod = 0 THEN HisLen ELSE HisLen - 1
+InitHis == \E s \in {x \in Structs(HisIn, HisRank, HisR) : InShard(x)} :
+              /\ case = [kind |-> "his", sch |-> SchemeOf(s), code |-> StructCode(s), ops |-> <<>>]
+              /\ out = [objs |-> <<HisObj(HisBase(s))>>]
+HisNext ==
+    /\ case.kind = "his" /\ Len(case.ops) < HisBound(case)
+    /\ LET cur == out.objs[Len(out.objs)]
+           o   == Obj(cur.m, cur.insh, cur.internal)
+       IN  \E op \in {x \in HisOps(o, HisScheme(case)) : OpEnabled(o, x, Lex)} :
+              \* the same operation twice in a row tells nothing new (use, use / reparse, reparse)
+              /\ ~(case.ops # <<>> /\ case.ops[Len(case.ops)] = op)
+              /\ case' = [case EXCEPT !.ops = Append(@, op)]
+              /\ out' = IF Derives(op) THEN [objs |-> Append(out.objs, HisObj(StepObj(o, op, Lex)))] ELSE out
 
 ---------------------------------------------------------------------------
 (* Part "acc": what the real code returned where the spec leaves the outcome open.  One JSON line   *)
@@ -277,9 +327,10 @@ Init == \/ Part = "sem" /\ InitSem
         \/ Part = "syn" /\ InitSyn
         \/ Part = "bad" /\ InitBad
         \/ Part = "tok" /\ InitTok
+        \/ Part = "his" /\ InitHis
         \/ Part = "acc" /\ InitAcc
         \/ Part = "rec" /\ InitRec
-Next == FALSE                      \* every case is an initial state (deadlock checking is off)
+Next == Part = "his" /\ HisNext       \* all other parts: every case is an initial state (deadlock checking is off)
 Spec == Init /\ [][Next]_vars
 
 (* the laws, per case *)
@@ -291,11 +342,28 @@ InvUniverse ==                     \* the generators produce what they claim
                             /\ out.ingrammar <=> (out.printable /\ out.why \cap {"bad_array_name", "bad_index_name"} = {})
                             /\ out.ingrammar => ParseMS(out.toks, Lex).ms = case.m
     /\ case.kind = "tok" => (out.ok => LawRoundTrip(out.ms, Lex))          \* ParseMS, PrintMS are inverse
+    /\ IsSyn => /\ Len(out.arrows) >= 7                                    \* every arrow mutant is one
+                /\ \A q \in DOMAIN out.arrows : TextMustReject(out.arrows[q].toks)
 InvRoundTrip   == IsSyn => LawRoundTrip(case.m, Lex)
 InvWhitespace  == IsSyn => LawWhitespace(case.m, Lex)
 InvRename      == IsSyn => \A q \in DOMAIN out.ren : LawRename(case.m, out.ren[q].r, Lex)
 InvAddAxes     == IsSyn => \A q \in DOMAIN out.add : /\ LawAddAxes(case.m, out.add[q].axs, Lex)
                                                       /\ out.add[q].ok => Regular(out.add[q].ms)
+InvArrow       == /\ IsSyn => \A q \in DOMAIN out.arrows : LawArrow(out.arrows[q].toks, Lex)
+                  /\ case.kind = "tok" => LawArrow(case.toks, Lex) /\ (out.must_reject => ~out.ok)
+(* a history: the objects are what the steps give, and every step obeys LawStep (the last one is     *)
+(* checked here; the earlier ones in the prefix states)                                              *)
+IsHis == case.kind = "his"
+HisObjAt(k) == Obj(out.objs[k].m, out.objs[k].insh, out.objs[k].internal)
+InvHistory ==
+    IsHis => /\ Len(out.objs) = 1 + Cardinality({q \in DOMAIN case.ops : Derives(case.ops[q])})
+             /\ \A k \in DOMAIN out.objs : /\ WellFormed(out.objs[k].m, Lex) /\ Regular(out.objs[k].m)
+                                           /\ out.objs[k].obs.shape.ok
+             /\ case.ops # <<>> =>
+                   LET op   == case.ops[Len(case.ops)]
+                       prev == HisObjAt(IF Derives(op) THEN Len(out.objs) - 1 ELSE Len(out.objs))
+                   IN  /\ OpEnabled(prev, op, Lex) /\ LawStep(prev, op, Lex)
+                       /\ HisObjAt(Len(out.objs)) = StepObj(prev, op, Lex)
 InvShape       == IsSem => LawShape(case.m, case.insh, case.internal)
 InvOutputKey   == (IsSem /\ out.shape.ok) => LawOutputKeyBijection(case.m, out.ext)
 InvInputKeys   == (IsSem /\ out.shape.ok) => LawInputKeysSelect(case.m, case.insh, out.ext)
